@@ -21,6 +21,7 @@ RULE = (
     "gulps compared bit-for-bit; periodic pulse trains; a scale lane folds 2**21 samples (2**22 thorough) whose values name their model bin, through TimeSeries.fold and "
     "Filterbank.fold (gulps 16384 and 100003). Non-trivial = more than one block, or maxdelay>0, or nints*nbands>1"
 )
+SCALE_LANE = '2**21 (thorough 2**22) samples whose values name their model phase bin, through TimeSeries.fold (nbins 8 and 64) and Filterbank.fold (gulps 16384 and 100003), accel 0 and 5'
 ASSUMPTIONS = [
     "the phase formula is the kernel's documented one, evaluated in float64 from float32-rounded tsamp, period, accel (what the kernel signature does)",
     "configurations where some sample's phase is within 1e-6 of a bin edge (unless accel = 0, period = 2**k tsamp and the float64 phase is provably exact: then the edge sample belongs to the upper bin), or where the reference leaves a cell empty (mean undefined), are skipped and counted",
